@@ -143,7 +143,8 @@ def verdict (d : DState) (l : Last) : String :=
       match l.out with
       | .merged =>
         if b'.totalSleep = fb.totalSleep ∧ b'.excludedSleep = fb.excludedSleep ∧ b'.errorsNum = fb.errorsNum ∧
-           sortMap b'.sleepMS = sortMap fb.sleepMS ∧ sortMap b'.times = sortMap fb.times ∧ b'.maxSleep = b.maxSleep
+           sortMap b'.sleepMS = sortMap fb.sleepMS ∧ sortMap b'.times = sortMap fb.times ∧ b'.maxSleep = b.maxSleep ∧
+           b'.configs.map (·.1) = fb.configs.map (·.1)
         then "ok" else "FAIL merge-not-exact"
       | .ignored => if acct b' = acct b then "ok" else "FAIL non-descendant-merged"
       | _ => "ok"
